@@ -81,10 +81,10 @@ RdD(order) == Add(Add(d0, Add(Mul(P(order), h), Div(Mul(Q(order), Mul(h, h)), Nu
 \* the uncoupled coefficients); same equations as und / over, but a nearly defective eigen-problem when coupled
 Kinds == {"rb0", "rbl", "rbd", "und", "crit", "over", "undn", "overn"}
 NearDefective(kd) == kd \in {"crit", "undn", "overn"}
-StepD(kind, order) == CASE kind \in {"und", "over", "undn", "overn"} -> ElD(order) [] kind = "crit" -> CrD(order)
-                        [] kind \in {"rb0"} -> RbD(order) [] kind \in {"rbl", "rbd"} -> RdD(order)
-StepV(kind, order) == CASE kind \in {"und", "over", "undn", "overn"} -> ElV(order) [] kind = "crit" -> CrV(order)
-                        [] kind \in {"rb0"} -> RbV(order) [] kind \in {"rbl", "rbd"} -> RdV(order)
+StepD(kind, order) == CASE kind \in {"und", "over", "undn", "overn", "soft"} -> ElD(order) [] kind = "crit" -> CrD(order)
+                        [] kind \in {"rb0"} -> RbD(order) [] kind \in {"rbl", "rbv", "rbd"} -> RdD(order)
+StepV(kind, order) == CASE kind \in {"und", "over", "undn", "overn", "soft"} -> ElV(order) [] kind = "crit" -> CrV(order)
+                        [] kind \in {"rb0"} -> RbV(order) [] kind \in {"rbl", "rbv", "rbd"} -> RdV(order)
 \* acceleration from the equation of motion at the end of the step (force there: f1 for order 1, f0 held for order 0
 \* - the solvers evaluate the acceleration with the force SAMPLE at that instant, i.e. f1)
 Acc == Div(Sub(Sub(f1, Mul(b, V("v1"))), Mul(k, V("d1"))), m)
@@ -93,7 +93,7 @@ RfD == Div(f1, k)
 
 ---------------------------------------------------------------------------
 (* problems and representations                                            *)
-IsRb(kind) == kind \in {"rb0", "rbl", "rbd"}
+IsRb(kind) == kind \in {"rb0", "rbl", "rbv", "rbd"}
 \* initial-condition rules: <<d0 given, v0 given, static_ic>>.  Documented meaning: d(0) = d0 if given, else the static displacement of
 \* the elastic equations (f0/k; rigid-body equations at 0) if static_ic, else 0;  v(0) = v0 if given, else 0;  static_ic is
 \* quietly ignored when d0 is given
@@ -104,7 +104,14 @@ IcNames == DOMAIN IcRule
 \* a few three-equation problems are always included (two elastic equations can then be coupled NEXT TO a rigid-body equation,
 \* with the residual-flexibility equation in front of it)
 Extra3 == {<<"rb0", "und", "over">>, <<"und", "rbd", "und">>, <<"over", "und", "rb0">>}
-Problems == {<<ks, rf, order, ic>> : ks \in UNION {[1..n -> Kinds] : n \in 1..MaxModes} \cup Extra3,
+\* two more kinds appear in dedicated problems only (they need their own run length / step size, chosen by the driver):
+\*   rbv   rigid body whose damping lies BETWEEN the two documented cut-offs (velocity coefficients damped, 1e-3 accuracy class);
+\*         the loss of damping only shows after many steps, so these problems are run 200 steps
+\*   soft  a heavy, very soft under-damped equation (k >= 0.005 but k/m < 0.005: next to the rigid-body auto-detection threshold),
+\*         solved with a large step so that w*h stays in the well-conditioned range
+ExtraKinds == {"rbv", "soft"}
+ExtraLong == {<<"rbv">>, <<"rbv", "und">>, <<"rb0", "rbv">>, <<"rbv", "rbv">>, <<"soft">>, <<"soft", "und">>, <<"rb0", "soft">>}
+Problems == {<<ks, rf, order, ic>> : ks \in UNION {[1..n -> Kinds] : n \in 1..MaxModes} \cup Extra3 \cup ExtraLong,
                                       rf \in BOOLEAN, order \in {0, 1}, ic \in IcNames}
 
 Solvers == {"SolveUnc", "SolveExp2", "SolveExp1"}
@@ -129,11 +136,14 @@ Legal(p, r) ==
   \* "rffirst": problem order kept, the residual-flexibility equation placed in FRONT of every other equation
   \* static initial conditions solve K_el x = F on the equations NOT declared rigid-body: a damped rigid-body equation that is neither
   \* auto-detected (coupled systems) nor declared makes that solve singular - outside the documented use of static_ic
-  /\ ((\E i \in 1..Len(p[1]) : p[1][i] \in {"rbl", "rbd"}) /\ r.coupling = "coupled" /\ ~r.rbgiven => ~IcRule[p[4]][3])
+  /\ ((\E i \in 1..Len(p[1]) : p[1][i] \in {"rbl", "rbv", "rbd"}) /\ r.coupling = "coupled" /\ ~r.rbgiven => ~IcRule[p[4]][3])
+  \* "soft": its stiffness per unit mass is BELOW the documented auto-detection threshold (0.005): handing it over mass-normalised
+  \* (m = None, or through pre_eig) with automatic rigid-body detection legitimately turns it into a rigid-body equation
+  /\ ((\E i \in 1..Len(p[1]) : p[1][i] = "soft") => (~r.pre_eig /\ (r.mform # "none" \/ r.rbgiven)))
   /\ (r.layout = "rffirst" => (p[2] /\ ~r.pre_eig /\ r.solver # "SolveExp1"))
-  /\ (\E i \in 1..Len(p[1]) : p[1][i] \in {"rbl", "rbd"}) => (r.coupling = "diag" \/ ~r.rbgiven)
+  /\ (\E i \in 1..Len(p[1]) : p[1][i] \in {"rbl", "rbv", "rbd"}) => (r.coupling = "diag" \/ ~r.rbgiven)
   \* auto-detection of a DAMPED rigid-body mode works for uncoupled systems only (documented): give it explicitly or keep diagonal
-  /\ ((\E i \in 1..Len(p[1]) : p[1][i] \in {"rbl", "rbd"}) /\ r.solver = "SolveUnc" /\ r.coupling = "coupled" => r.rbgiven)
+  /\ ((\E i \in 1..Len(p[1]) : p[1][i] \in {"rbl", "rbv", "rbd"}) /\ r.solver = "SolveUnc" /\ r.coupling = "coupled" => r.rbgiven)
 
 \* abstract state the constructor must reach (SolveUnc / SolveExp2): index sets in the order the representation lays them out
 Predict(p, r) == [nrb |-> Cardinality({i \in 1..Len(p[1]) : IsRb(p[1][i])}), nel |-> NEl(p), nrf |-> IF p[2] THEN 1 ELSE 0,
@@ -151,5 +161,5 @@ PartitionTotal == \A r \in RepsOf(q) : Predict(q, r).nrb + Predict(q, r).nel + P
 ExportProblem == Export => PrintT(<<"PROBLEM", q, RepsOf(q), IcRule[q[4]]>>)
 \* the step terms (once)
 ExportTerms == (Export /\ q = <<<<"rb0">>, FALSE, 0, "zero">>) =>
-   \A kd \in Kinds : \A o \in {0, 1} : PrintT(<<"STEP", kd, o, StepD(kd, o), StepV(kd, o), Acc, RfD>>)
+   \A kd \in Kinds \cup ExtraKinds : \A o \in {0, 1} : PrintT(<<"STEP", kd, o, StepD(kd, o), StepV(kd, o), Acc, RfD>>)
 =============================================================================
